@@ -4,6 +4,7 @@ import (
 	"context"
 	"errors"
 	"fmt"
+	"io"
 	"testing"
 
 	"github.com/platinummonkey/go-concurrency-limits/core"
@@ -149,6 +150,9 @@ func c14Run(c c14case) [][]int64 {
 				// the token must still be completed exactly once, by the classified outcome
 				cctx, cancel := context.WithCancel(context.Background())
 				abandon := len(out)%3 == 1
+				if len(out)%4 == 2 {
+					cancel() // the call arrives with a context that is already done: admission, refusal status and completion do not depend on it
+				}
 				resp, err := ic(cctx, "req", &grpc.UnaryServerInfo{FullMethod: "/m"}, func(ctx context.Context, req interface{}) (interface{}, error) {
 					log.add(2)
 					if abandon {
@@ -172,6 +176,9 @@ func c14Run(c c14case) [][]int64 {
 				}
 				cctx, cancel := context.WithCancel(context.Background())
 				abandon := len(out)%3 == 1
+				if len(out)%4 == 2 {
+					cancel()
+				}
 				err := ic(cctx, "/m", "req", "reply", nil, func(ctx context.Context, method string, req, reply interface{}, cc *grpc.ClientConn, opts ...grpc.CallOption) error {
 					log.add(2)
 					if abandon {
@@ -225,6 +232,9 @@ func c14Run(c c14case) [][]int64 {
 				callErr = nil
 				if op[2] != 0 {
 					callErr = errors.New("stream op failed")
+					if len(out)%2 == 0 {
+						callErr = io.EOF // the peer half-closed: an error like any other for the token's completion
+					}
 				}
 				var err error
 				if op[0] == 3 {
